@@ -3,7 +3,9 @@ LEVEL = "proof"
 LEAN_MODULES = ["CifModel.Props.C14", "CifModel.Props.ReviewC14"]
 REQUIRED = ["CifModel.C14_all_continue", "CifModel.C14_refines_spec", "CifModel.C14_skip_current",
             "CifModel.C14_skip_siblings", "CifModel.C14_end", "CifModel.C14_error_propagates",
-            "CifModel.C14_returns_ok_on_directives", "CifModel.C14_empty_loop", "CifModel.C14_cex_finished_pinned"]
+            "CifModel.C14_returns_ok_on_directives", "CifModel.C14_empty_loop", "CifModel.C14_cex_finished_pinned",
+            "CifModel.C14_visits_sublist", "CifModel.C14_skip_current_tree", "CifModel.C14_skip_siblings_tree",
+            "CifModel.C14_parent_end_after_skip_siblings", "CifModel.C14_returns_ok_or_empty_loop"]
 GEN = ["ErrCodes"]
 FAMILIES = ["walk"]
 TRUSTED_BASE = [
@@ -24,13 +26,28 @@ ASSUMPTIONS = [
     "handlers do not modify the CIF during the walk",
 ]
 PARTIAL = [
+    "the property says SKIP_CURRENT suppresses 'exactly the callbacks for the descendants' and SKIP_SIBLINGS 'additionally those "
+    "for the not-yet-visited siblings'; the theorems state what src/cif.c does, which removes MORE callbacks than a literal "
+    "reading (C14_visits_sublist: what is delivered is always a sublist of fullTraversal; C14_refines_spec says which): "
+    "(a) SKIP_CURRENT at a start callback also removes the END callback of that element (cif.h: 'bypass the current element, "
+    "or at least any untraversed children'); (b) SKIP_SIBLINGS at a start callback or item also removes the element's own end "
+    "callback and the END callback of its PARENT: no packet_end after an item, no loop_end after a packet_start, no "
+    "frame_end / block_end after a loop_start, no cif_end after a block_start (exception: after a frame_start the parent's "
+    "loops are still walked and its end callback is delivered); (c) SKIP_SIBLINGS at an END callback removes the later "
+    "siblings and the parent's end callback likewise; (d) cif.h says of SKIP_SIBLINGS 'and thereafter proceed along the "
+    "normal path', and cif_parse DOES deliver block_end / frame_end after a child answered SKIP_SIBLINGS (C15) — the two "
+    "functions treat the same directive differently; recorded as a reading note (DESIGN.md C14), the walk oracle accepts "
+    "either behaviour on these end callbacks",
+    "C14_all_continue and C14_returns_ok_on_directives are restricted to CIFs without packet-less loops (entering such a "
+    "loop ends the walk with CIF_EMPTY_LOOP: C14_empty_loop, C14_returns_ok_or_empty_loop); every other theorem holds for "
+    "every CIF",
     "'handles passed to callbacks are valid for queries' is not a theorem: it is observed by the correspondence run only "
     "(every handle is queried inside every callback under ASan)",
 ]
 LEVEL_TEXT = ("Proof about the executable model Walk.walk, for all CIFs (any shape/order) and all handler programs "
               "(arbitrary functions of invocation index and event): refinement of a declarative pruning semantics over the "
               "event tree, all-continue = depth-first flattening with CIF_OK, local SKIP_CURRENT / SKIP_SIBLINGS laws for "
-              "every element kind, END / error code = last callback and result, directives never yield an error. The model "
+              "every element kind, delivered callbacks = a sublist of the full traversal, END / error code = last callback and result (every CIF), directives never yield an error. The model "
               "is tied to src/cif.c by differential execution with an independent implementation-level oracle.")
 LEVEL_NOTE = ("All theorems hold for every handler program (F32 fixed by d1128e2; C14_cex_finished_pinned documents the old "
               "behaviour); handle validity only observed under ASan. Trusted: Lean kernel, model transcription (checked by correspondence), Spec/Traversal.lean, harness.")
